@@ -57,5 +57,11 @@ fn fix_ring_doc(mut doc: Vec<u8>) -> Vec<u8> {
 }
 
 fn is_ring(bytes: &[u8]) -> bool {
-    bytes.find(RING_TEMPLATE_CONTEXT_SPECIFIC).is_some()
+    // Only documents with the outer shape that `fix_ring_doc` relies on (an ASN.1 SEQUENCE whose
+    // one-byte length covers the rest of the document) can come from ring. Anything else is left
+    // for the PKCS#8 parser to accept or reject.
+    bytes.len() >= 2
+        && bytes[0] == 0x30
+        && bytes[1] as usize == bytes.len() - 2
+        && bytes.find(RING_TEMPLATE_CONTEXT_SPECIFIC).is_some()
 }
